@@ -8,7 +8,8 @@
 EXTENDS L2Env
 
 FsInit(c) == [index |-> 0, done |-> FALSE]
-Init == \E c \in Cfgs : InitEnv(c, c.n, FsInit(c))
+InitFor(c) == InitEnv(c, c.n, FsInit(c))
+Init == \E c \in Cfgs : InitFor(c)
 
 PollBegin ==
   /\ pc = "begin" /\ ~fs.done
